@@ -14,8 +14,14 @@ MCbdim == [b \in MCBase |-> [L |-> 1]]
 B(x) == [c \in MCBase |-> IF c = x THEN 1 ELSE 0]
 C(l, pv, p, r) == [l |-> l, lp |-> 0, pv |-> pv, p |-> p, r |-> B(r)]
 \* consistent by construction: n2 = 2 n1, n3 = 3 n2 = 6 n1, n4 = 5 n3, and 1 milli-n4 = 0.03 n1 (prefixed LEFT side)
+\* With VERIF_REDECL = 1 the pair (n3, n2) has a SECOND candidate, n3 = 5 n2: declared after n3 = 3 n2 (or before it) it
+\* replaces it - a corrected definition.  Only histories whose equivalences in force stay free of contradiction are
+\* explored (with n3 = 6 n1 and n2 = 2 n1 in force the correction would contradict them).
+Redecl == EnvInt("VERIF_REDECL", 0)
 MCCands == IF NNodes = 3
-           THEN << C("n2", <<1, 0, 0>>, 0, "n1"), C("n3", <<0, 1, 0>>, 0, "n2"), C("n3", <<1, 1, 0>>, 0, "n1") >>
+           THEN IF Redecl = 1
+                THEN << C("n2", <<1, 0, 0>>, 0, "n1"), C("n3", <<0, 1, 0>>, 0, "n2"), C("n3", <<1, 1, 0>>, 0, "n1"), C("n3", <<0, 0, 1>>, 0, "n2") >>
+                ELSE << C("n2", <<1, 0, 0>>, 0, "n1"), C("n3", <<0, 1, 0>>, 0, "n2"), C("n3", <<1, 1, 0>>, 0, "n1") >>
            ELSE << C("n2", <<1, 0, 0>>, 0, "n1"), C("n3", <<0, 1, 0>>, 0, "n2"), C("n3", <<1, 1, 0>>, 0, "n1"),
                    C("n4", <<0, 0, 1>>, 0, "n3"), [l |-> "n4", lp |-> -3, pv |-> <<-2, 1, -2>>, p |-> 0, r |-> B("n1")] >>
 MCRoots == {"n1"}
@@ -31,12 +37,13 @@ DefineLate(b) == /\ b \in Late /\ b \notin Defined
 Usable(i) == {MCCands[i].l} \cup Support(MCCands[i].r) \subseteq Defined
 NQ == Cardinality({k \in 1..Len(hist) : hist[k].op \in {"query", "compare"}})
 MCNext ==
-  \/ \E i \in 1..Len(MCCands) : Len(decl) < MaxDecl /\ Usable(i) /\ Declare(i)
+  \/ \E i \in 1..Len(MCCands) : Len(decl) < MaxDecl /\ Usable(i) /\ ConsistentSet(EffOf(Append(decl, i))) /\ Declare(i)
   \/ \E a, b \in Defined : a # b /\ NQ < MaxQ /\ QueryNode(a, b, 1)
   \/ \E a, b \in Defined : a # b /\ NQ < MaxQ /\ CompareNode(a, b, 1)
   \/ \E b \in Late : DefineLate(b)
 \* theorem config: declaration subsets only (no history), all orders
 MCNextDecl == \E i \in 1..Len(MCCands) : Declare(i)
 DeclView == Declared
-ExportHist == Len(hist) > 0 => PrintT("@@H " \o ToJson(hist))
+\* (with re-declarations only the histories that contain the second candidate are new)
+ExportHist == (Len(hist) > 0 /\ (Redecl = 1 => 4 \in Declared)) => PrintT("@@H " \o ToJson(hist))
 =============================================================================
